@@ -114,6 +114,7 @@ def make_settings(input=None, rst=None, output=None):
 # (fast path). "main-o": the text goes through cminx.main([file, -s <settings file>, -o <dir>]) and the page is read back
 # from the output directory. "main-stdout": through cminx.main([file, -s ...]) without -o; the page is what was printed.
 # core.py chooses the mode from the case index (entry-level checks only), so a replay takes the same way.
+_DOC_DIR = None
 PIPELINE = "documenter"
 PIPELINE_STATS = {"documenter": 0, "main-o": 0, "main-stdout": 0}
 
@@ -216,7 +217,15 @@ def document_text(text, settings=None, title="T", module="M", tmpdir=None, encod
         PIPELINE_STATS[mode] += 1
         return _through_main(text, settings, stem, encoding, newline, mode == "main-stdout"), None
     PIPELINE_STATS["documenter"] += 1
-    d = tmpdir or tempfile.mkdtemp(prefix="vfdoc_")
+    # one file per worker process, rewritten for every document (as an editor does): whatever CMinx may remember about a
+    # path, its size or its time stamp from an earlier call is put to the test by the next one
+    global _DOC_DIR
+    if tmpdir is None:
+        if _DOC_DIR is None or not os.path.isdir(_DOC_DIR):
+            _DOC_DIR = tempfile.mkdtemp(prefix="vfdoc_")
+            import atexit
+            atexit.register(shutil.rmtree, _DOC_DIR, True)
+    d = tmpdir or _DOC_DIR
     path = os.path.join(d, "m.cmake")
     try:
         with open(path, "w", encoding=encoding, newline=newline) as f:
@@ -231,8 +240,7 @@ def document_text(text, settings=None, title="T", module="M", tmpdir=None, encod
         o = guarded(go)
         return o, holder.get("doc")
     finally:
-        if tmpdir is None:
-            shutil.rmtree(d, ignore_errors=True)
+        pass
 
 
 def reset_logging():
